@@ -84,6 +84,11 @@ type harness struct {
 	jobs      []obsJob
 	faults    int
 	kvs       []*kvStore // every Pebble kv store opened and not yet seen closing
+	// unknown: replicas whose content is unspecified (a wipe - RemoveNodeData or
+	// ImportSnapshot - was undone or torn by a crash in a way that is no per
+	// record mixture of before and after); nothing is checked for them until
+	// the wipe is repeated
+	unknown map[raftio.NodeInfo]bool
 
 	// probes
 	rollovers, indexBlocks, reopens, acked, entriesSaved int
@@ -656,7 +661,7 @@ func (h *harness) checkOthers(op *wop) {
 		}
 	}
 	h.chk.db = h.db
-	for _, p := range h.pairs {
+	for _, p := range h.known() {
 		if p == op.id {
 			continue
 		}
@@ -762,7 +767,11 @@ func (h *harness) afterFault(op *wop, out outcome, before, after map[raftio.Node
 	h.mu.Lock()
 	h.crashed, h.injected = false, false
 	h.mu.Unlock()
-	h.recoverAndVerify(cands, touchedOracle, how)
+	wiped := map[raftio.NodeInfo]bool{}
+	if redo {
+		wiped[op.id] = true
+	}
+	h.recoverAndVerify(cands, touchedOracle, how, wiped)
 	if h.ctx.Violated() {
 		return
 	}
@@ -780,6 +789,7 @@ func (h *harness) afterFault(op *wop, out outcome, before, after map[raftio.Node
 			return
 		}
 		h.commit(r, map[raftio.NodeInfo]*RefReplica{rid: sc.Nodes[rid]})
+		delete(h.unknown, rid)
 	}
 	h.queries()
 }
@@ -822,7 +832,8 @@ func specific(o string) bool {
 
 // recoverAndVerify restarts the store (no faults) and checks every replica
 // against its candidate states.
-func (h *harness) recoverAndVerify(cands map[raftio.NodeInfo][]*RefReplica, touchedOracle string, how string) {
+func (h *harness) recoverAndVerify(cands map[raftio.NodeInfo][]*RefReplica, touchedOracle string, how string,
+	wiped map[raftio.NodeInfo]bool) {
 	_, panicked, pval := error(nil), false, interface{}(nil)
 	var err error
 	func() {
@@ -843,7 +854,7 @@ func (h *harness) recoverAndVerify(cands map[raftio.NodeInfo][]*RefReplica, touc
 	defer func() { h.chk.lenientCommit = false }()
 	for _, p := range h.pairs {
 		list := cands[p]
-		undone := false
+		undone := wiped[p]
 		if len(list) == 0 {
 			cur := h.model.Get(p)
 			list = []*RefReplica{cur}
@@ -883,6 +894,12 @@ func (h *harness) recoverAndVerify(cands map[raftio.NodeInfo][]*RefReplica, touc
 				}
 			}
 		}
+		if matched == nil && undone {
+			// the properties demand nothing of an undone / torn wipe
+			h.ctx.Count("probe.wipe_left_unspecified_state", 1)
+			h.unknown[p] = true
+			continue
+		}
 		if matched == nil && h.ctx.Tracing {
 			for i := list[0].Floor + 1; i <= list[0].Last; i++ {
 				e, _, err := h.db.IterateEntries(nil, 0, p.ShardID, p.ReplicaID, i, i+1, math.MaxUint64)
@@ -910,7 +927,7 @@ func (h *harness) recoverAndVerify(cands map[raftio.NodeInfo][]*RefReplica, touc
 		h.model.Nodes[p] = matched
 	}
 	col := &collector{}
-	h.chk.list(h.model, h.pairs, col.rep)
+	h.chk.list(h.model, h.known(), h.unknown, col.rep)
 	if len(col.f) > 0 {
 		h.ctx.Violate("C10", "acked-save-lost", "after %s (%s): %s", h.firedAt, how, col.String())
 	}
@@ -920,10 +937,24 @@ func (h *harness) recoverAndVerify(cands map[raftio.NodeInfo][]*RefReplica, touc
 // fullCheck verifies every replica completely (fault free).
 func (h *harness) fullCheck(rep reporter) {
 	h.chk.db = h.db
-	for _, p := range h.pairs {
+	for _, p := range h.known() {
 		h.chk.full(h.model.Get(p), rep)
 	}
-	h.chk.list(h.model, h.pairs, rep)
+	h.chk.list(h.model, h.known(), h.unknown, rep)
+}
+
+// known lists the replicas whose content is specified.
+func (h *harness) known() []raftio.NodeInfo {
+	if len(h.unknown) == 0 {
+		return h.pairs
+	}
+	var out []raftio.NodeInfo
+	for _, p := range h.pairs {
+		if !h.unknown[p] {
+			out = append(out, p)
+		}
+	}
+	return out
 }
 
 // queries performs the random queries that follow every operation.
@@ -934,6 +965,9 @@ func (h *harness) queries() {
 	h.chk.db = h.db
 	s := h.wsrc
 	for _, p := range h.pairs {
+		if h.unknown[p] {
+			continue
+		}
 		ref := h.model.Get(p)
 		if !h.chk.snapshot(ref, h.c09) {
 			return
@@ -990,7 +1024,7 @@ func (h *harness) queries() {
 		}
 	}
 	if s.Chance(1, 4) {
-		h.chk.list(h.model, h.pairs, h.c09)
+		h.chk.list(h.model, h.known(), h.unknown, h.c09)
 	}
 	if h.opHash {
 		h.ctx.Ev("fsops", uint64(h.disk.Ops()))
@@ -1028,7 +1062,8 @@ func Run(ctx *runner.Ctx) *runner.Result {
 		panic("logstore: unknown store " + ctx.Param("store", ""))
 	}
 	h := &harness{ctx: ctx, src: ctx.Src, wsrc: ctx.Src, kind: kind, mode: ctx.Param("mode", "model"),
-		model: NewRefStore(), logBytes: map[string]int{}, sig: 14695981039346656037}
+		model: NewRefStore(), logBytes: map[string]int{}, sig: 14695981039346656037,
+		unknown: map[raftio.NodeInfo]bool{}}
 	switch h.mode {
 	case "model", "crash", "ioerr":
 	case "kverr":
